@@ -137,7 +137,20 @@ def gget(E, name, idx):
 
 
 def snap(E, lv):
-    return GSnap(E.llen(lv), list(E.larrs(lv)), lv.et)
+    """snapshot of the current contents of a list: fresh array constants DEFINED equal to the current component arrays
+    (constants, unlike the lambda / store terms a popleft or append leaves behind, are usable as quantifier triggers)"""
+    arrs = []
+    k = z3.Int("k!snap")
+    for a in E.larrs(lv):
+        if z3.is_const(a) and a.decl().kind() == z3.Z3_OP_UNINTERPRETED:
+            arrs.append(a)
+            continue
+        c = E.fresh("gh_snap", a.sort())
+        # pointwise definition (an array-level equation would be solved away by the solver's preprocessing, and the
+        # trigger with it)
+        E.assume(z3.ForAll([k], z3.Select(c, k) == z3.Select(a, k), patterns=[z3.Select(c, k)]))
+        arrs.append(c)
+    return GSnap(E.llen(lv), arrs, lv.et)
 
 
 def empty_snap(E):
